@@ -50,6 +50,14 @@ def opAgopStep : Handler := fun j => do
   let M := Xrfmv.AgopStep.normAgop ge jit K T xs A
   pure <| Json.mkObj [("M", fssJson (C05.toArr M))]
 
-def ops : List (String × Handler) := [("median_bandwidth", opMedianBandwidth), ("agopstep", opAgopStep)] ++ C05.ops
+/-- `{"op":"bandwidth_facts"}` → the regenerated defaults of `_adapt_bandwidth`. -/
+def opBandwidthFacts : Handler := fun _ =>
+  pure <| Json.mkObj [("subsampleLimit", toJson Xrfmv.Gen.Bandwidth.subsampleLimit),
+    ("guardEpsExp10", toJson Xrfmv.Gen.Bandwidth.guardEpsExp10),
+    ("medianOfOffDiagonal", toJson Xrfmv.Gen.Bandwidth.medianOfOffDiagonal),
+    ("rootTakenUnlessExponentOne", toJson Xrfmv.Gen.Bandwidth.rootTakenUnlessExponentOne)]
+
+def ops : List (String × Handler) :=
+  [("median_bandwidth", opMedianBandwidth), ("agopstep", opAgopStep), ("bandwidth_facts", opBandwidthFacts)] ++ C05.ops
 
 end Xrfmv.Drv.C19
